@@ -96,6 +96,7 @@ func (m *CPU) Run(app risc.Application) (int, error) {
 	cycle := 0
 	for {
 		cycle++
+		m.ctx.VerifTick(cycle)
 		log.Info(m.ctx, "Cycle %d", cycle)
 		m.decodeBus.Connect(cycle)
 		m.controlBus.Connect(cycle)
@@ -153,6 +154,7 @@ func (m *CPU) Run(app risc.Application) (int, error) {
 			cycle++
 			m.writeBus.Connect(cycle)
 			for !m.areWriteUnitsEmpty() || !m.writeBus.IsEmpty() {
+				m.ctx.VerifTick(cycle)
 				for _, wu := range m.writeUnits {
 					_ = wu.Cycle(wuReq{-1})
 				}
@@ -173,6 +175,7 @@ func (m *CPU) Run(app risc.Application) (int, error) {
 
 			for {
 				isEmpty := true
+				m.ctx.VerifTick(cycle)
 				cycle++
 
 				for _, cc := range m.cacheControllers {
@@ -198,6 +201,7 @@ func (m *CPU) Run(app risc.Application) (int, error) {
 				m.writeBus.Connect(cycle + 1)
 				for _, wu := range m.writeUnits {
 					for !wu.isEmpty() || !m.writeBus.IsEmpty() {
+						m.ctx.VerifTick(cycle)
 						_ = wu.Cycle(wuReq{sequenceID})
 					}
 				}
@@ -220,6 +224,7 @@ func (m *CPU) Run(app risc.Application) (int, error) {
 
 	for {
 		cycle++
+		m.ctx.VerifTick(cycle)
 		empty := true
 		for _, cc := range m.cacheControllers {
 			if !cc.snoop.IsStart() {
